@@ -105,6 +105,29 @@ def correspondence(ctx):
             evs = lg.split(";")
             ctx.violation("observed execution is not a path of the protocol model: %s -> %s" % (op, verdict), dict(kind="tie-trace-inclusion", op=op, verdict=verdict, events_around=evs[max(0, k - 25):k + 5]), no_input=True)
         stats["accepted"] = acc
+    # parameter change between jobs: the level is raised / lowered in mid-frame (no explicit window); every job created afterwards must stay inside the
+    # window that job 0 already announced in the frame header - decided exactly by the Lean conformance predicate (window rule per sequence)
+    import datagen
+    ml_lines, ml_src = [], []
+    for k in range(4 if quick else 40):
+        per = rng.choice([600000, 1 << 20, 1500000]); blk = datagen.randbytes(rng, per); xx = bytearray()
+        while len(xx) < rng.choice([5, 6, 8]) * (1 << 20):
+            b = bytearray(blk)
+            for _ in range(30):
+                b[rng.randrange(per)] ^= 0x55
+            xx += b
+        xx = bytes(xx)
+        ml_lines.append("cstream 100=%d,400=%d,201=1 %s %s 10000000 %s" % (rng.choice([1, 1, 3]), rng.choice([1, 2, 3]), xx.hex(), rng.choice(["300000", "1000000", "100000,700000"]),
+                                                                        rng.choice(["cccuc", "ccccccccuc", "cuc", "cccccuccccwc"])))
+        ml_src.append(xx)
+    ml_out = frames.parallel(lambda ch: frames.run_lines(frames.harness(), ch, timeout=1800)[1], frames.split_chunks(ml_lines, 8))
+    ml_conf = frames.parallel(lambda ch: frames.model_lines(ch), frames.split_chunks(
+        ["conform %s %s - 0 0 0" % (o.split()[0], xx.hex()) if o and not o.startswith(("err", "TIMEOUT")) else "bad" for o, xx in zip(ml_out, ml_src)], 8))
+    for ln, o, cf in zip(ml_lines, ml_out, ml_conf):
+        if not o or o.startswith(("err", "TIMEOUT")):
+            ctx.violation("multithreaded compression with a level change in mid-frame failed: %s" % (o or "no output")[:100], dict(kind="monitor", op=ln[:400000], result=o[:300]))
+        elif not cf.startswith("ok"):
+            ctx.violation("frame emitted by worker threads with a level change in mid-frame is not valid / not conformant: %s" % cf[:300], dict(kind="monitor", op=ln[:400000], conform=cf[:600]))
     # ASan+UBSan build (uninstrumented harness) on a sample: tables kept between frames of one context
     sops = [o for o in ops if int(o.split()[3]) <= 3000000][:12 if quick else 300] + [o for o in ops[-8:] if "163=" in o]
     hx_san = build.link("zvh_mt", ["zvh_mt.c"], "san", exclude=("pool.c", "zstdmt_compress.c"), extra=["-DZV_NOTRACE"])
